@@ -88,3 +88,19 @@ def call_tree(ctx, pid, ints=None, floor_note=True):
             ctx.undecided("fn-gone:%s" % rn, "%s:1" % rel, "%s of %s is no longer there under that name (removed, renamed or moved): no verdict on it" % (rn[3:].replace("__", "."), rel))
     if n_mod == 0:
         raise AnalysisError("no transcribed anchor module of %s found" % pid)
+
+
+def transcribed_count(pid):
+    n = 0
+    for rel in anchor_files(pid):
+        t = _tree(rel[:-3].replace("/", ".").replace(".__init__", ""))
+        if t is not None:
+            n += sum(1 for x in t.body if isinstance(x, ast.FunctionDef))
+    return n
+
+
+def obligation(pid, ints=None):
+    from .core import Ob
+    return Ob(pid + ".T", "call tree: every function of the anchor modules computes what its reviewed transcription computes (canonical forms; organised differently => undecided)",
+              lambda ctx: call_tree(ctx, pid, ints), floor=max(1, transcribed_count(pid)), engines="SYM",
+              breaks_if="inputs reaching the named function's changed component")
